@@ -1,5 +1,6 @@
-From TLXV Require Import C09.LoserTree C09.Spec C09.Instances.
+From TLXV Require Import C09.LoserTree C09.Spec C09.Instances C09.BuildOrder.
 Require Extraction. Require ExtrOcamlBasic.
 Extraction Language OCaml.
 Extraction "../ocaml/gen/C09_model.ml" Spec.run_N Spec.check_N Spec.run_gN Spec.check_gN
-  Instances.run_Ngt Instances.check_Ngt Instances.run_gNgt Instances.check_gNgt LoserTree.invalid_.
+  Instances.run_Ngt Instances.check_Ngt Instances.run_gNgt Instances.check_gNgt
+  BuildOrder.run_oN BuildOrder.run_goN LoserTree.invalid_.
